@@ -74,11 +74,18 @@ func main() {
 		a.HibernationThreshold = rng.Intn(12)
 		t1, t2 := rbtree.NewRBTree(a), rbtree.NewRBTree(a)
 		haveFile := false
+		stale := false // the arena was read back from a file that may be older than the trees' headers
 		fmt.Fprintln(wo, "new")
 		fmt.Fprintln(wi, "ok")
 		for round := 0; round < 4; round++ {
 			stNil, _, _, _, _, _ := a.VerifHibState()
 			if !stNil {
+				if stale {
+					// this probe is about the raw arena: after a read-back the old tree headers may not match the
+					// restored storage any more, so content is added through fresh trees
+					t1, t2 = rbtree.NewRBTree(a), rbtree.NewRBTree(a)
+					stale = false
+				}
 				for k := rng.Intn(25); k > 0; k-- {
 					t := t1
 					if rng.Intn(2) == 0 {
@@ -148,6 +155,7 @@ func main() {
 						}
 					case "deser":
 						err = a.Deserialize(path)
+						stale = true
 					}
 					if err != nil {
 						fmt.Fprintf(wi, "err %v\n", err)
